@@ -1252,6 +1252,10 @@ class Insert(ValuesBase, HasSyntaxExtensions[Literal["post_values"]]):
             ("table", InternalTraversal.dp_clauseelement),
             ("_inline", InternalTraversal.dp_boolean),
             ("_select_names", InternalTraversal.dp_string_list),
+            (
+                "include_insert_from_select_defaults",
+                InternalTraversal.dp_boolean,
+            ),
             ("_values", InternalTraversal.dp_dml_values),
             ("_multi_values", InternalTraversal.dp_dml_multi_values),
             ("select", InternalTraversal.dp_clauseelement),
@@ -1864,7 +1868,12 @@ class Delete(
             ("_where_criteria", InternalTraversal.dp_clauseelement_tuple),
             ("_returning", InternalTraversal.dp_clauseelement_tuple),
             ("_hints", InternalTraversal.dp_table_hint_list),
+            ("_return_defaults", InternalTraversal.dp_boolean),
             ("_post_criteria_clause", InternalTraversal.dp_clauseelement),
+            (
+                "_return_defaults_columns",
+                InternalTraversal.dp_clauseelement_tuple,
+            ),
         ]
         + HasPrefixes._has_prefixes_traverse_internals
         + DialectKWArgs._dialect_kwargs_traverse_internals
